@@ -76,6 +76,7 @@ def cases(tier, seed):
                    pcid=rnd.choice([1, 3, 5, 7, 9, 11, 201]),
                    variant=rnd.choice(['success', 'failure', 'mixed']),
                    dest_mute=rnd.random() < 0.25, rel_behind=rnd.random() < 0.2,
+                   late_raise=rnd.random() < 0.3,
                    no_pending=rnd.random() < 0.5, seed=seed * 100003 + j)
 
 
@@ -518,6 +519,15 @@ def _scp_case(case):
                 ok = uids if var == 'success' else (uids[:1] if var == 'mixed' else [])
                 bad = [] if var == 'success' else [(c, i, 0x0112) for c, i in
                                                     (uids[1:] if var == 'mixed' else uids)]
+                if case.get('late_raise'):
+                    # the handler answers with lazily evaluated iterables ("iterable or None");
+                    # looking the instances up fails only when the provider goes through them
+                    # to build its report - after the request has been confirmed
+                    def lazy(items):
+                        for it_ in items:
+                            yield it_
+                        raise exceptions.EventHandlingError('archive look-up failed')
+                    ok = lazy(ok)
                 return {'aet': 'DEST', 'address': DEST[0], 'port': DEST[1]}, ok, bad
 
             def on_commitment_response(self, transaction_uid, success, failure):
@@ -645,6 +655,12 @@ def _scp_case(case):
             if rel_behind:
                 peer.read_pdu(timeout=30.0)          # the A-RELEASE-RP (or whatever ends it)
                 return
+            if kind == 'n_action' and case.get('late_raise') and 'instead' not in out:
+                # one request, one response: whatever goes wrong afterwards, nothing more is
+                # sent in answer to it
+                extra = peer.read_message(timeout=30.0)
+                if isinstance(extra, dict) and 'fields' in extra:
+                    out['surplus'] = extra
             if kind in ('echo', 'find') and 'instead' not in out and outcome != 'raise':
                 # the same SOP class is negotiated on a second context (other id): a further
                 # request there must be answered THERE
@@ -683,6 +699,9 @@ def _scp_case(case):
         rsps = out['rsps']
         for e in peer.errors:
             v('peer-saw-protocol-error', e)
+        if 'surplus' in out:
+            v('second-response-to-one-request provider=%s' % kind,
+              'after the %d expected: %r' % (out.get('want'), out['surplus']['fields']))
         if len(rsps) != out.get('want'):
             v('request-not-answered outcome=%s' % outcome,
               'expected %r responses, got %d; instead: %r; handler calls %r' % (
@@ -738,7 +757,8 @@ def _scp_case(case):
                 if m['fields'].get(0x0120) != mid2:
                     v('message-id-being-responded-to-wrong', 'second request id %d, response %r' % (
                         mid2, m['fields'].get(0x0120)))
-        if kind == 'n_action' and outcome != 'raise' and len(rsps) == 1:
+        if kind == 'n_action' and outcome != 'raise' and len(rsps) == 1 and \
+                not case.get('late_raise'):     # (a look-up that failed produces no report)
             reports = [m for p in dest_peers for m in p.messages
                        if m['fields'].get(0x0100) == 0x0100]
             if len(reports) != 1:
